@@ -238,6 +238,10 @@ class WrapperModel(Model):
         if f[0] == 'lib' and f[1].startswith(self.module.rel + '.') and ln in self.module.functions and ln not in ('update_wrapper',):
             fi = self.module.functions[ln]
             return self.engine.inline(fi.node, ln, {}, args, kws, st, node)
+        # --- the user function handed to a function of the package other than _keygen (it might be evaluated there)
+        if f[0] == 'lib' and ln not in ('_keygen', 'update_wrapper', 'wraps', 'partial') and any(a == FN for a in args) \
+                and (f[1].startswith('.') or f[1].startswith('klepto') or f[1].startswith(self.module.rel)):
+            st.emit('FNPASS', (C(ln),) + tuple(args), line)
         # --- ordered de-duplication of the recency queue: dict.fromkeys(queue) keeps the FIRST occurrence of every key in iteration order
         if f == ('lib', 'dict.fromkeys') and args and len(args) <= 2:
             src = args[0]
